@@ -29,6 +29,7 @@ type concretizer struct {
 	s      *State // clone of the entry state: loads here read the entry heap
 	leaves []*leaf
 	fail   string
+	recording bool
 }
 
 func (c *concretizer) leafOf(t Term) *leaf {
@@ -89,6 +90,7 @@ func (c *concretizer) build(v Val, t types.Type, depth int) *cval {
 		return &cval{kind: "string", typ: t, strT: x.T, ln: c.leafOf(app("slen", ISort(), x.T))}
 	case IfaceV:
 		if t.String() == "io.Writer" { // a recording stand-in: its Write calls land in verifspec.Trace
+			c.recording = true
 			return &cval{kind: "recwriter", typ: t}
 		}
 	case PtrV:
@@ -550,7 +552,7 @@ func (e *Engine) replayFromModel(dir string, w *Oblig, meta *replayMeta) string 
 	var src strings.Builder
 	fmt.Fprintf(&src, "//go:build verif\n\npackage %s\n\nimport (\n\t\"fmt\"\n\t\"io\"\n\t\"testing\"\n\n\tvs \"github.com/emitter-io/emitter/internal/verifspec\"\n)\n\nvar _ io.Writer\n\n", pkg.Name())
 	fmt.Fprintf(&src, "// Replay of obligation %s (generated by govc from the solver's counterexample).\n", meta.Obligation)
-	fmt.Fprintf(&src, "func TestVerifReplay(t *testing.T) {\n\tvs.Trace = nil\n")
+	fmt.Fprintf(&src, "func TestVerifReplay(t *testing.T) {\n\tvs.Trace = nil\n\tvs.Recording = %v\n", c.recording)
 	var argNames []string
 	for i, p := range fn.Params {
 		nm := fmt.Sprintf("a%d", i)
